@@ -79,9 +79,15 @@ TokenizerRefinesGrammar(args) == ParseModel(Stream(args)) = SplitAbs(Stream(args
 (* --- part 1: enumeration ---------------------------------------------------------------------- *)
 VARIABLE c
 NamedSets(k, p) == {T \in SUBSET Named : ~(p /\ "callback" \in T) /\ ("allow_greedy" \in T => k # "token")}
-AttrCasesFor(k, p) == {[t |-> "attr", kind |-> k, poscb |-> p, named |-> s] : s \in UNION {Perms(S) : S \in NamedSets(k, p)}}
+(* shapes of the callback expression: commas, angle brackets and comparison operators inside it    *)
+(* belong to the callback, whatever follows it                                                      *)
+CbVals == {"simple", "lt", "shift", "generic", "tuple", "block"}
+HasCb(p, s) == p \/ \E i \in DOMAIN s : s[i] = "callback"
+AttrCasesFor(k, p) == {[t |-> "attr", kind |-> k, poscb |-> p, named |-> pc[1], cbv |-> pc[2]] :
+                         pc \in {q \in (UNION {Perms(S) : S \in NamedSets(k, p)}) \X (CbVals \cup {"none"}) :
+                                  (q[2] = "none") = ~HasCb(p, q[1])}}
 AttrCases == UNION {AttrCasesFor(k, p) : k \in Kinds, p \in BOOLEAN}
-ItemCases == {[t |-> "items", kind |-> "logos", poscb |-> FALSE, named |-> s] :
+ItemCases == {[t |-> "items", kind |-> "logos", poscb |-> FALSE, named |-> s, cbv |-> "none"] :
                 s \in {q \in UNION {Perms(S) : S \in {T \in SUBSET Items : Cardinality(T) >= 2 /\ Cardinality(T) <= 5 /\ ("subB" \in T => "subA" \in T)}} :
                          \A i, j \in DOMAIN q : (q[i] = "subA" /\ q[j] = "subB") => i < j}}
 
